@@ -9,7 +9,7 @@
     generators.  Small configurations are tried too (the generator is documented for any num_sets)."""
 import time
 
-from vt.c18_util import FixedSampler, coq_cases, ensure_dirs, natmat, patched, queue_fn, quiet_logs, run_jobs, zlist, zs_floor, zzmat, fr
+from vt.c18_util import bulk, FixedSampler, coq_cases, ensure_dirs, natmat, patched, queue_fn, quiet_logs, run_jobs, zlist, zs_floor, zzmat, fr
 from vt.common import cq, cz
 
 HEADER = ("From Coq Require Import List ZArith QArith.\nFrom RL4CO Require Import Harness.HC18_graph.\n"
@@ -90,8 +90,8 @@ def run_unit(ctx, proofs_ok):
     crashes = 0
     plan = [(kw, 4 if thorough else 2) for kw in confs for rep in range(8 if thorough else 2)]
     if thorough:      # bulk: 10^4 small rows (batches in which often no set reaches max_size)
-        plan += [(dict(num_items=12, num_sets=4, min_size=1, max_size=4, n_sets_to_choose=2), 1000)] * 6 + \
-                [(dict(num_items=9, num_sets=3, min_size=2, max_size=5, n_sets_to_choose=3), 1000)] * 4
+        plan += [(dict(num_items=12, num_sets=4, min_size=1, max_size=4, n_sets_to_choose=2), 1000)] * bulk(6) + \
+                [(dict(num_items=9, num_sets=3, min_size=2, max_size=5, n_sets_to_choose=3), 1000)] * bulk(4)
     for (kw, B) in plan:
         if True:
             s = seed()
@@ -137,7 +137,7 @@ def run_unit(ctx, proofs_ok):
     cases, metas = [], []
     fplan = [(kw, 2) for kw in [dict(num_loc=5, to_choose=2), dict(num_loc=12, to_choose=12), dict(num_loc=25, to_choose=3)] + ([dict()] if thorough else [dict(num_loc=40, to_choose=10)])]
     if thorough:
-        fplan += [(dict(num_loc=5, to_choose=2), 1000)] * 6 + [(dict(num_loc=4, to_choose=4), 1000)] * 4
+        fplan += [(dict(num_loc=5, to_choose=2), 1000)] * bulk(6) + [(dict(num_loc=4, to_choose=4), 1000)] * bulk(4)
     for (kw, B) in fplan:
         s = seed()
         g = FLPGenerator(**kw)
